@@ -281,6 +281,26 @@ def r_sigtrans(pb, z, a):
     return f(z, k=a)
 
 
+def _affine(x, k=1.0, b=0.0):
+    return x * k + b
+
+
+_WRAPPED = {}
+
+
+def r_sigtrans_hist(pb, z, a):
+    """the SAME decorated transform object called several times with different keyword subsets; returns the last result"""
+    if "t" not in _WRAPPED:
+        _WRAPPED["t"] = pb.signal_transform(_affine)
+    r = None
+    for kw in a:
+        r = _WRAPPED["t"](z, **{k: v for k, v in kw.items()})
+    return r
+
+
+Op("signal_transform_history", _float,
+   lambda d, i: [d(st.sampled_from([{"k": 3.0, "b": 1.0}, {"k": 2.0}, {"b": 0.5}, {}, {"k": 0.5, "b": -1.0}])) for _ in range(d(st.integers(2, 3)))],
+   r_sigtrans_hist, needs_len=0)
 Op("signal_transform", _float, lambda d, i: d(st.sampled_from([2, 3, 0.5])), r_sigtrans, needs_len=0)
 Op("like", _always, lambda d, i: None, lambda pb, z, a: type(z).like(z), needs_len=0)
 Op("compute", _always, lambda d, i: None, lambda pb, z, a: z.compute(), needs_len=0)
